@@ -16,6 +16,7 @@ package cache
 
 import (
 	"sync"
+	"sync/atomic"
 )
 
 // LruCacheMap use LRU strategy to cache the most frequently accessed hotspot parameter
@@ -88,6 +89,24 @@ func (c *LruCacheMap) Purge() {
 	defer c.lock.Unlock()
 
 	c.lru.Purge()
+}
+
+// NewInFlightCounterCacheMap is NewLRUCacheMap for counters of requests in flight: a counter that
+// is not zero belongs to requests that will decrement it when they finish, so it is never evicted
+// (evicting it would let the value start from zero again while those requests are still running).
+func NewInFlightCounterCacheMap(size int) ConcurrentCounterCache {
+	lru, err := NewLRU(size, nil)
+	if err != nil {
+		return nil
+	}
+	lru.inUse = func(value interface{}) bool {
+		p, ok := value.(*int64)
+		return ok && p != nil && atomic.LoadInt64(p) != 0
+	}
+	return &LruCacheMap{
+		lru:  lru,
+		lock: new(sync.RWMutex),
+	}
 }
 
 func NewLRUCacheMap(size int) ConcurrentCounterCache {
